@@ -183,7 +183,6 @@ func init() {
 	}
 }
 
-
 func codeOrNone(c string) string {
 	if c == "" {
 		return "none"
